@@ -23,10 +23,10 @@ PROBES = {
     "C08": ["call:accept-first", "call:reject-then-accept", "call:exhausted", "call:raise-first-trial",
             "call:raise-after-reject", "call:zero-step", "reject=0", "strategy:Constant", "strategy:Adaptive",
             "strategy:TrustRegion", "damping:clamped-min", "damping:clamped-max", "trust:down-shrunk",
-            "trust:down-reset", "GN", "group-param", "float32", "scripted"],
+            "trust:down-reset", "GN", "group-param", "float32", "scripted", "input-form:dict", "input-form:list", "input-form:single"],
     "C07": ["lm:first-trial", "lm:trial>=2", "gn", "weights:RR", "weights:NRR", "weights:full", "weights:refreshed-in-place", "kernel", "triggs",
             "clamp-min-bites", "clamp-max-bites", "frozen-param", "group-param", "vectorize-off", "two-residuals",
-            "unused-columns"],
+            "unused-columns", "input-form:dict", "input-form:list", "input-form:single"],
 }
 TS = float(os.environ.get("PPSIM_TOLSCALE", "1"))
 EXC = {"RuntimeError": RuntimeError, "ValueError": ValueError, "AssertionError": AssertionError,
@@ -71,6 +71,7 @@ def generate(seed, tier, prop="C08"):
            "weights": r.choice(["none", "RR", "NRR", "full"]) if (prop == "C07" and not scripted) else
                       r.choice(["none", "none", "RR"]) if not scripted else "none",
            "weight_at": r.choice(["ctor", "step"]), "reweight": r.random() < 0.3, "vectorize": r.random() < 0.8,
+           "input_form": r.choice(["tuple", "tuple", "list", "dict", "single"]),
            "dtype": "f64" if (prop == "C07" or r.random() < 0.6) else "f32",
            "target": (not scripted) and r.random() < 0.3, "spec": spec}
     if cfg["max"] < cfg["min"]:
@@ -419,6 +420,18 @@ def execute(plan, prop, out, tr):
             om.restore(model, cur)
         return float(tot)
 
+    # the same data in the packaging variants RobustModel.model_forward documents: tuple / list / dict / single tensor
+    form = c.get("input_form", "tuple")
+    if form == "list":
+        step_input = list(data)
+    elif form == "dict" and len(data) >= 1:
+        step_input = {"d%d" % k_: t_ for k_, t_ in enumerate(data)}
+    elif form == "single" and len(data) == 1:
+        step_input = data[0]
+    else:
+        step_input = data
+    if step_input is not data:
+        out.probe("input-form:" + form)
     tight = 1e2 * eps * TS
     prev_sig = "start"
     prev_bitwise, prev_ret = True, None
@@ -442,15 +455,18 @@ def execute(plan, prop, out, tr):
         sink = io.StringIO()
         try:
             with contextlib.redirect_stdout(sink):
-                ret = opt.step(data, target=target_arg, weight=step_w)
+                ret = opt.step(step_input, target=target_arg, weight=step_w)
         except Exception as e:
             with torch.no_grad():
                 try:
                     finite = all(bool(torch.isfinite(r_).all()) for r_ in _residuals(model, data, targets))
                 except Exception:
                     finite = False
-            if not finite:
-                out.declined("non-finite residuals (diverged)"); break
+            big = max([float(p_.detach().abs().max()) for p_ in model.plist() if p_.numel()] + [0.0])
+            if not finite or not math.isfinite(big) or big > 1e6:
+                # accept-everything configurations (reject=0, tiny damping) can run away to 1e12 rad rotations, where
+                # float32 Jacobians overflow to NaN and modjac's own assertion fires: a diverged run has no verdict
+                out.declined("diverged (non-finite residuals or parameters beyond 1e6)"); break
             if c["opt"] == "GN":
                 raise Violation(prop + ".raises", "GN.step raised %s: %s" % (type(e).__name__, str(e)[:300]), ci,
                                 "gn:raises:frozen" if any(ps.get("frozen") for ps in kinds) else "gn:raises")
